@@ -29,6 +29,43 @@ CLAIMED = {
         "is accepted exactly when not at the start of the current script. Correspondence: complete {step,rewind} history trees to depth 10/14 "
         "on scripts exercising each state component, random walks, all compared with the implementation after every command.",
         "DESIGN.md section 6 (C04)", "Lean 4 invariant proof over command histories + exhaustive bounded history-tree correspondence"),
+    "C05": claim(
+        "Lean theorems for every control block, script and program: after i iterations the hash the stepwise check displays is the i-th element of "
+        "BIP341's Merkle chain (TapLeaf hash folded with the path nodes in lexicographic order; C05_intermediate), the run ends Done exactly when "
+        "bip341Valid holds and Failed otherwise, never stuck (C05_run_eq, C05_done_iff, C05_run_fuel), the size rule 33+32m, m<=128 is what "
+        "configure_tx_txin enforces before the environment exists (C05_size_gate, _reject, _never, C05_size_iff), the leaf hash it stores is BIP341's "
+        "TapLeaf hash and is the one handed to the signature digest when the phase completes (C05_leaf_hash, C05_leaf_hash_step), end to end for a "
+        "configured tapscript session (C05_session_commitment); the model's hash/tweak functions are the specification's for the concrete SHA-256 / "
+        "secp256k1 instance (glue_agree). Correspondence: TaprootCommitmentEnv in-process vs model vs spec vs an independent Python BIP341 implementation: "
+        "path lengths 0..8,16,31..33,64,127,128 (all 0..128 thorough), random / prefix-sharing / equal nodes, all 128 leaf versions x both parities, keys on and "
+        "off the curve, every single-field corruption; tapscript sessions built and signed by the independent signer, control blocks of wrong size.",
+        "DESIGN.md section 6 (C05)", "Lean 4 proof (induction over the path, refinement to bip341Valid) + four-voice differential correspondence"),
+    "C11": claim(
+        "Lean theorems for every checker (transaction context), flag set and signature version: a listed (signature, key) pair makes EvalChecksig succeed "
+        "before any encoding rule or real verification (C11_listed_accepted_checksig and the OP_CHECKSIG/VERIFY/ADD corollaries), in OP_CHECKMULTISIG a listed "
+        "pair is consumed without encoding checks or checkECDSA and in-order listed signatures for a subsequence of the keys succeed (C11_listed_multisig_step, "
+        "_run, C11_listed_accepted_multisig); another signature for a listed key gains nothing from the option (C11_other_signature_not_accepted, _multisig_step); "
+        "unlisted keys are unaffected at every level up to whole scripts: if along the run without the option every executed signature opcode examines only "
+        "unlisted keys, the run with the option visits the same states and ends alike (C11_unlisted_unaffected, C11_execOp_unlisted, C11_evalInstrs_unlisted, "
+        "C11_script_unlisted); the option parser accepts exactly the well-formed lists and builds tables denoting the listed pairs provided no signature is listed "
+        "for two keys (parse_accepts, parse_rejects, parse_agree_tables, parse_gives_CfgRel_clauses; the excluded region is the known finding, with a decide-checked "
+        "witness F_C11_dup_sig_tables). Correspondence: pair lists x scripts with CHECKSIG/VERIFY/MULTISIG/ADD using listed, unlisted, crossed pairs x three signature "
+        "versions x flag sets, metamorphic with/without the option, malformed lists.",
+        "DESIGN.md section 6 (C11)", "Lean 4 proofs (short-circuit lemmas, non-interference by induction over the run, parser equivalence) + differential and metamorphic correspondence"),
+    "C06": claim(
+        "Lean theorems for every list of leaf scripts (any n >= 1) and every leaf index: tap's pairing loop, leftover handling and merge "
+        "passes (the literal erase/overwrite loop proved equal to the pairing recursion) end with one tree whose stored root is the BIP341 "
+        "Merkle root of a script tree having exactly the given scripts as leaves, in order, each once, of height <= ceil(log2 n) "
+        "(tap_tree_is_bip341_tree); the path Prove emits is the leaf's entry of the BIP341 path table and control block + script verify "
+        "under bip341Valid against the tweaked key (tap_control_verifies_any_count for n <= 2^128, tap_control_verifies for the tool's "
+        "1..1024); the debugger's TaprootCommitmentEnv iterated to its end answers Done (tap_accepted_by_debugger); address, key, parity, "
+        "root and tweak do not depend on the selected leaf (tap_address_independent_of_selection); the key is the BIP341 output key "
+        "(tap_address_is_bip341_output_key); hash length and tweak create/check consistency are proved for the SHA-256/secp256k1 instance. "
+        "The digest clause rests on the Sighash theorems (schnorrSighash_eq_spec: SignatureHashSchnorr = BIP341/342 digest when the data is ready; "
+        "calcSighashTxData_multi_input_aborts) and on correspondence of calc_sighash. Correspondence: the real tap binary under ptys with --tx/--txin vs "
+        "model vs spec vs an independent Python BIP341/bech32m/sighash reference, exhaustive over (n, index) for n = 1..64, random n up to 1024, "
+        "argument-level stream, every emitted triple fed to the debugger's own commitment check.",
+        "DESIGN.md section 6 (C06)", "Lean 4 proof (tree-construction invariants, Merkle-path induction, refinement to bip341Valid and to the debugger's stepwise check) + exhaustive (n,index) process-level correspondence with an independent reference"),
     "C07": claim(
         "Lean theorems: Value::operator>> emits the opcode byte for an opcode, the minimal push of the script number for an integer and the "
         "minimal push of exactly the given bytes for data (int_emits_minimal, data_emits_minimal); the minimal push decodes to one instruction "
@@ -56,6 +93,20 @@ CLAIMED = {
         "closed-form families for every k on the specification (k x OP_1 succeeds iff n+k<=1000, k x OP_NOP iff c+k<=201, tapscript exempt). "
         "Correspondence: every limit at L-1, L, L+1, L+2 for each way of reaching it x three signature versions.",
         "DESIGN.md section 6 (C10)", "Lean 4 proofs (boundary lemmas, induction on k) + generated-table obligations + boundary correspondence"),
+    "C12": claim(
+        "Lean theorems, for every session (plain script, legacy spend with scriptPubKey and P2SH sections, P2WSH, taproot script path of any length), "
+        "pushes of any length, any checker, and every history of step/rewind commands as the debugger performs them — failing steps and refused commands "
+        "included (a failed step is the identity on the session): the listing btcdeb.cpp builds is exactly the execution-order decoding of the session "
+        "(C12_listing_exact: one line per commitment step, every instruction by name or by all the bytes it pushes, the redeem script of a P2SH scriptPubKey "
+        "being what the last scriptSig instruction leaves on the stack, proved equal to the stack top at hand-over for push-only scriptSigs: predOk_holds), "
+        "curr_op_seq is never negative, the marked/echoed line is the operation the next step performs and nothing is marked at the end "
+        "(C12_session, C12_marked_line, C12_marker_histories/_reach, C12_nothing_pending_at_end, pending_is_next_step; invariant 'listing = executed prefix ++ "
+        "plan of the rest' over all six kinds of step, rewinds via C04_rewind_exact). Remaining explicit hypotheses describe what setup_environment/configure_tx_txin "
+        "establish (setup_fresh). Correspondence: start-up code of btcdeb.cpp main run in-process with commands played "
+        "through the real fn_step/fn_rewind/fn_print and their printed output parsed, cross-checked against the real binary under a pseudo-terminal; three-way "
+        "(implementation, model, execution-plan spec) after every command: all opcodes and push encodings incl. 509-520 byte pushes, complete {step,rewind} trees, "
+        "every spend kind, path lengths 0..4 (7, 128), doc/txs, malformed and failing sessions, regression cases of the repaired defects. The two-column display is not modelled.",
+        "DESIGN.md section 6 (C12)", "Lean 4 invariant proof over command histories (listing = executed prefix ++ plan of the rest) + in-process and pty differential correspondence"),
     "C13": claim(
         "Lean theorems for all byte strings / transactions: parse then serialise reproduces the identical bytes (C13_parse_ser), serialise then "
         "parse returns the transaction (C13_ser_parse), serTx equals the declarative BIP144 encoding, txid = hash256 of the witness-stripped "
